@@ -34,6 +34,8 @@ type Obligation struct {
 }
 
 type FnCtx struct {
+	loopHeadHavoc    bool
+	privateCells     []frozenCell // captured variables that never leave the function: they survive `modifies everything`
 	frozenCells      []frozenCell // captured variables assigned exactly once: they survive `modifies everything`
 	eng              *Engine
 	fn               *ssa.Function
@@ -674,7 +676,10 @@ func (fr *Frame) enterLoop(lp *Loop, ins []edgeIn) (*State, string) {
 	eff := c.eng.loopEffects(fr.fn, lp, fr)
 	preAlloc := c.heapGet(s0, "alloc", allocSort)
 	if eff.all {
+		// at a loop head nothing the loop may assign survives -- private variables included
+		c.loopHeadHavoc = true
 		c.havocAllBut(s1, eff.preserved(), eff.heaps)
+		c.loopHeadHavoc = false
 		for _, h := range sortedKeys(eff.heaps) {
 			if _, ok := s1.heaps[h]; ok && h != "alloc" {
 				c.havocHeap(s1, h)
